@@ -57,13 +57,17 @@ func (b *vBus) WaitAsync()                                     {}
 // arbitrary ping/rebalance failures; two monitor rounds on the virtual clock.
 func H_C10_leader() {
 	setMerge(true)
-	n := choose("followers", 4)
+	maxF := 4
+	if tierThorough() {
+		maxF = 6 // sizes up to 7 (leader + 5 followers); join-time orders are explored symbolically (n! paths)
+	}
+	n := choose("followers", maxF)
 	cfg := &config.Dcp{}
 	cfg.Dcp.Group.Membership.RebalanceDelay = time.Second
 	bus := &vBus{}
 	sd := NewServiceDiscovery(cfg, bus).(*serviceDiscovery)
 	var log []vRebalanceCall
-	names := []string{"f0", "f1", "f2"}
+	names := []string{"f0", "f1", "f2", "f3", "f4"}
 	jt := make([]int64, n)
 	fs := make([]*vFollower, n)
 	for i := 0; i < n; i++ {
